@@ -25,9 +25,12 @@ class Sys3:
     """State access for the explorer.  state = (packed registers, memory rows, packed levels); levels = clock
     levels followed by the levels of the asynchronous resets.  load() restores the levels first (whatever edge or
     asynchronous reset that provokes is overwritten afterwards), then registers and memory rows."""
-    def __init__(self, frag, regs, md, clocks, arsts, sync_inputs):
+    def __init__(self, frag, regs, md, clocks, arsts, sync_inputs, obs):
         from amaranth.hdl import Cat
         self.frag = frag
+        self._regs_obs = Cat(*regs, obs)         # obs: combinational observation, read together with the registers
+        self._regw = sum(len(r) for r in regs)
+        self.last_obs = None
         self.regs, self.md = list(regs), md
         self.clocks, self.arsts, self.sync_inputs = list(clocks), list(arsts), list(sync_inputs)
         self._regs = Cat(*self.regs)
@@ -42,7 +45,9 @@ class Sys3:
         g = self.ctx.get
         rows = tuple(int(g(r)) for r in self.rows)
         self._known_rows = rows
-        return (g(self._regs), rows, g(self._lv))
+        x = g(self._regs_obs)
+        self.last_obs = x >> self._regw
+        return (x & ((1 << self._regw) - 1), rows, g(self._lv))
 
     def load(self, state):
         regs, rows, lv = state
@@ -85,7 +90,8 @@ class C03Spec:
 
     # -- the real design, through the public API only
     def build(self):
-        from amaranth.hdl import Module, ClockDomain, Signal, Elaboratable, ResetInserter, EnableInserter, DomainRenamer
+        from amaranth.hdl import (Module, ClockDomain, Signal, Elaboratable, ResetInserter, EnableInserter, DomainRenamer,
+                                  ClockSignal, ResetSignal, Cat)
         from amaranth.lib.memory import Memory
         cfg, mdl = self.cfg, self.model
         two = "other" in cfg["doms"]
@@ -100,6 +106,7 @@ class C03Spec:
         sp = Signal(2, init=ini["sp0"] | (ini["sp1"] << 1), name="sp")
         cntb = Signal(2, init=ini.get("cntb", 0), name="cntb")
         rlb = Signal(1, init=ini.get("rlb", 0), reset_less=True, name="rlb")
+        obs = Signal(2, name="obs")
         box = {}
         logic_b = cfg["logic_b"]
 
@@ -125,13 +132,21 @@ class C03Spec:
                 wp = mem.write_port(domain="sync")
                 rp = mem.read_port(domain="sync")
                 m.d.comb += [wp.addr.eq(cnt[0]), wp.data.eq(d), wp.en.eq(1), rp.addr.eq(rl)]
+                # late-bound clock / reset of whatever domain this module's "sync" ends up being
+                m.d.comb += obs.eq(Cat(ClockSignal("sync"), ResetSignal("sync", allow_reset_less=True)))
                 box["mem"], box["rp"] = mem, rp
                 return m
 
         class Core(Elaboratable):
             def elaborate(self, platform):
                 m = Module()
-                m.d.sync += [cnt.eq(cnt + 1), rl.eq(~rl), sp[0].eq(~sp[0])]
+                # (same behaviour as cnt+1 / ~rl / ~sp[0]; written through If/Else and a slice of a Cat target
+                # so that the inserters have to find the driven bits through control flow and compound targets)
+                with m.If(cnt[0]):
+                    m.d.sync += cnt.eq(cnt + 1)
+                with m.Else():
+                    m.d.sync += cnt.eq(cnt + 1)
+                m.d.sync += Cat(rl, sp)[0:2].eq(~Cat(rl, sp)[0:2])
                 if logic_b:
                     m.d.other += [cntb.eq(cntb + 1), rlb.eq(~rlb)]
                 m.submodules.leaf = wrap(Leaf(), cfg["sub"])
@@ -149,11 +164,11 @@ class C03Spec:
         arsts = [cds[n].rst for n in mdl.arst_doms]
         by_name = {"d": d, **ctl}
         sync_inputs = [cds[n[4:]].rst if n.startswith("rst_") else by_name[n] for n in mdl.sync_inputs]
-        inputs = {id(s) for s in clocks + arsts + sync_inputs}
+        inputs = {id(s) for s in clocks + arsts + sync_inputs + [r for r in (c.rst for c in cds.values()) if r is not None]}
         hidden = [s for s in found if id(s) not in {id(r) for r in regs} and id(s) not in inputs]
         if hidden or len(mems) != 1:
             raise RuntimeError(f"state vector of the design is not the modelled one: extra {hidden!r}, memories {len(mems)}")
-        return Sys3(frag, regs, mems[0], clocks, arsts, sync_inputs)
+        return Sys3(frag, regs, mems[0], clocks, arsts, sync_inputs, obs)
 
     def model_init(self, sysm):
         return self.model.initial()
@@ -170,9 +185,13 @@ class C03Spec:
         else:
             ctx.set(sysm.arsts[arg], (lv2 >> (mdl.nclk + arg)) & 1)
         got = sysm.read()
-        if got in allowed:
+        want_obs = mdl.expected_obs(inp, lv2)
+        if got in allowed and sysm.last_obs == want_obs:
             return got, [], flags
-        errs = mdl.explain(m, got, allowed, inp, kind, arg)
+        errs = mdl.explain(m, got, allowed, inp, kind, arg) if got not in allowed else []
+        if sysm.last_obs != want_obs:
+            errs.append(f"obs({mdl.obs_dom}):{mdl.event_name(m, kind, arg)}:clock/reset-signal got {sysm.last_obs:02b}, model {want_obs:02b} "
+                        f"(Cat(ClockSignal, ResetSignal) of the leaf's sync domain, which is finally '{mdl.obs_dom}')")
         return got, errs, flags          # continue from the implementation's state
 
 
@@ -214,10 +233,25 @@ def configs(rep):
     return out
 
 
+def _raised_inside_amaranth(e):
+    import traceback
+    tb = traceback.extract_tb(e.__traceback__)
+    return bool(tb) and ("/amaranth/" in tb[-1].filename or tb[-1].filename == "<string>")
+
+
 def run_config(task):
     cfg, replay_n = task
     spec = C03Spec(cfg)
-    res = explore(spec, procs=1, replay_n=replay_n, cap_states=400_000)
+    try:
+        res = explore(spec, procs=1, replay_n=replay_n, cap_states=400_000)
+    except Exception as e:
+        if not _raised_inside_amaranth(e):
+            raise
+        # elaborating or simulating a legal design must not raise
+        return {"cfg": spec.describe(), "tag": cfg_tag(spec.cfg), "states": 0, "transitions": 0, "depth": 0, "flags": [],
+                "capped": False, "validated": 0, "wall": 0.0, "actions": len(spec.actions), "errors": [], "mismatch": [],
+                "inputs": spec.model.sync_inputs, "clocks": spec.model.dom_names, "crash": f"{type(e).__name__}: {e}"[:300],
+                "crash_cls": type(e).__name__}
     out = {"cfg": spec.describe(), "tag": cfg_tag(spec.cfg), "states": res.states, "transitions": res.transitions,
            "depth": res.max_depth, "flags": sorted(res.flags), "capped": res.capped, "validated": res.traces_validated,
            "wall": round(res.wall, 2), "actions": len(spec.actions), "errors": [], "mismatch": [],
@@ -253,6 +287,10 @@ def run(rep):
         if r["capped"]:
             rep.add("capped_designs", 1)
         tag = r["tag"]
+        if r.get("crash"):
+            rep.add("designs_crashed", 1)
+            rep.violation(f"{tag}:crash:{r['crash_cls']}", f"{tag}: elaborating / simulating the design raised {r['crash']}",
+                          {"cfg": r["cfg"], "path": [], "crash": True})
         for e in r["errors"]:
             first = e["errs"][0]
             rep.violation(f"{tag}:{first.split(' got ')[0]}", f"{tag}: {e['errs']} after actions (valuation of {r['inputs']} packed LSB first, "
@@ -271,8 +309,9 @@ def run(rep):
                "non-empty subset of clocks at once | flip of one asynchronous reset); complete state compared after every event. "
                "Designs: all 6 single-domain and all 36 two-domain kind combinations (pos/neg x sync/async/reset-less) without "
                "wrappers; every (submodule, top) nesting of <= %d wrappers from the alphabet over fixed domain pairs" % rep.pick(2, 3))
-    for need in NEED:
-        rep.require(need in allflags, f"antecedent '{need}' never exercised")
+    if not rep.cov.get("designs_crashed"):      # (a design that raised is already a violation; its graph is missing)
+        for need in NEED:
+            rep.require(need in allflags, f"antecedent '{need}' never exercised")
     rep.assume("state injection through ctx.set is validated by replaying shortest paths from reset on fresh simulators")
     rep.assume("the data register of a synchronous read port may either behave normally or take its initial value when a reset "
                "(domain or inserted) applies to its domain: the statement and docs/stdlib/memory.rst do not say which")
@@ -282,6 +321,14 @@ def run(rep):
 
 def replay(payload):
     spec = C03Spec(payload["cfg"])
+    if payload.get("crash"):
+        try:
+            explore(spec, procs=1, replay_n=0, max_depth=4)
+        except Exception as e:
+            if not _raised_inside_amaranth(e):
+                raise
+            return [f"raised {type(e).__name__}: {e}"[:300]]
+        return []
     idx = [spec.actions.index(tuple(a)) for a in payload["path"]]
     _key, errs = replay_path(spec, idx)
-    return [f"step {i}: {e}" for i, e in errs]
+    return [f"action #{i} {spec.actions[i]}: {e}" for i, e in errs]
